@@ -5,9 +5,10 @@
    Part = "all" the three parts below in one run
    Part = "a"   every run-id expression of <= MaxLen items (40 items; 65 641
                 expressions for MaxLen = 3):   Den(Scrub(e)) = Den(e)
-   Part = "b1"  the per-entry predicate: every single-entry database of the
-                grid x every constraint combination (run expression x 7^4
-                name choices), with and without a second version of the names
+   Part = "b1"  the per-entry predicate: single-entry databases (every run x the
+                two extreme name tuples) x every constraint combination (13 run
+                choices x 7^4 name choices), with and without a second version
+                of the names, every page
    Part = "b2"  set / order / page: every database of <= 2 entries of a
                 sub-grid plus large structured databases x a family of
                 constraints x every page (index 0..6, limit none/1/2/3),
@@ -26,9 +27,6 @@ RunExprs == { <<IdItem(2)>>, <<IdItem(0)>>, <<IdItem(1), IdItem(3)>>, <<IdItem(4
               <<RgItem(4, OPEN), RgItem(1, 2)>>, <<RgItem(0, OPEN)>> }
 RunChoices == {Absent} \cup {[hasrun |-> TRUE, run |-> e] : e \in RunExprs}
 
-AllQueries == {Query(r, tg, tk, al, sv) : r \in RunChoices, tg \in NameChoices("tg"), tk \in NameChoices("tk"),
-                                           al \in NameChoices("al"), sv \in NameChoices("sv")}
-
 (* a smaller family for the set-level part: one dimension (or the run and one
    dimension) constrained at a time, plus a few fully constrained ones *)
 SomeQueries ==
@@ -39,7 +37,7 @@ SomeQueries ==
                                      al \in NameChoices("al"), sv \in NameChoices("sv")}
     \cup {Query(r, {"T1"}, {"k1", "k"}, {"a1"}, {"s1", "s2"}) : r \in RunChoices}
 
-SubGrid == IF Quick THEN {x \in Grid : x.run \in {1, 2} /\ x.t = "T1" /\ x.k = "k1"}                        \* 16 entries
+SubGrid == IF Quick THEN {x \in Grid : x.run \in {1, 2} /\ x.t = "T1" /\ x.k = "k1" /\ x.s = "s1"}          \*  8 entries
            ELSE {x \in Grid : x.run \in {1, 2, 3} /\ x.t = "T1" /\ (x.k = "k1" \/ x.a = "a1")}      \* 36 entries
 SmallDbs == {{}} \cup {{x} : x \in SubGrid} \cup {{x, y} : x, y \in SubGrid}
 BigDbs == { Grid,
@@ -51,7 +49,15 @@ BigDbs == { Grid,
 
 (* single entries for b1: every run, both extremes of the name grid (the predicate is a
    conjunction of independent per-dimension tests) *)
-B1Keys == {x \in Grid : x.v = "v1" /\ (Quick => x.run \in {2, 3}) /\ (<<x.t, x.k, x.a, x.s>> \in {<<"T1", "k1", "a1", "s1">>, <<"T2", "k2", "a1b", "s2">>})}
+B1Keys == IF Quick THEN {x \in Grid : x.v = "v1" /\ <<x.run, x.t, x.k, x.a, x.s>> \in {<<2, "T1", "k1", "a1", "s1">>, <<3, "T2", "k2", "a1b", "s2">>}}
+          ELSE {x \in Grid : x.v = "v1" /\ <<x.t, x.k, x.a, x.s>> \in {<<"T1", "k1", "a1", "s1">>, <<"T2", "k2", "a1b", "s2">>}}
+
+(* quick: 5 of the 7 name choices per dimension *)
+NameChoicesMC(d) ==
+    IF Quick THEN LET x == CHOOSE n \in DbNames[d] : TRUE
+                      y == CHOOSE n \in DbNames[d] : n # x
+                  IN {{}, {x}, {x, y}, {Unknown[d]}, {y, Unknown[d]}}
+    ELSE NameChoices(d)
 
 (* Two-level fan-out (root -> node -> leaf) so that TLC's workers share the leaves: the
    root has one successor per node, every node is expanded by whichever worker takes it.
@@ -59,12 +65,13 @@ B1Keys == {x \in Grid : x.v = "v1" /\ (Quick => x.run \in {2, 3}) /\ (<<x.t, x.k
 Nodes(p) ==
     CASE p = "a"  -> {[kind |-> "a_", pre |-> e] : e \in Exprs(1)}
       [] p = "b1" -> {[kind |-> "b1", db |-> {x}, bump |-> b, r |-> r] : x \in B1Keys, b \in (IF Quick THEN {TRUE} ELSE BOOLEAN), r \in RunChoices}
-      [] p = "b2" -> {[kind |-> "b2", db |-> d, bump |-> b] : d \in SmallDbs \cup BigDbs, b \in BOOLEAN}
+      [] p = "b2" -> {[kind |-> "b2", db |-> d, bump |-> b] : d \in SmallDbs, b \in (IF Quick THEN {FALSE} ELSE BOOLEAN)}   \* (quick: no run >= 3)
+                     \cup {[kind |-> "b2", db |-> d, bump |-> b] : d \in BigDbs, b \in BOOLEAN}
 Leaves(p, n) ==
     CASE p = "a"  -> IF n.pre = <<>> THEN {[kind |-> "a", e |-> <<>>]}
                      ELSE {[kind |-> "a", e |-> n.pre \o t] : t \in Exprs(MaxLen - 1)}
       [] p = "b1" -> {[kind |-> "b", db |-> n.db, bump |-> n.bump, q |-> Query(n.r, tg, tk, al, sv)] :
-                         tg \in NameChoices("tg"), tk \in NameChoices("tk"), al \in NameChoices("al"), sv \in NameChoices("sv")}
+                         tg \in NameChoicesMC("tg"), tk \in NameChoicesMC("tk"), al \in NameChoicesMC("al"), sv \in NameChoicesMC("sv")}
       [] p = "b2" -> {[kind |-> "b", db |-> n.db, bump |-> n.bump, q |-> q] : q \in SomeQueries}
 
 Parts == IF Part = "all" THEN {"a", "b1", "b2"} ELSE {Part}
